@@ -63,6 +63,23 @@ def as_text(v: Any) -> Optional[Text]:
     return None
 
 
+class AbstractObject:
+    """An object of the analysed program that a rule models: the explorer reads its attributes, stores into
+    them, formats it and tests its class through these methods (each may return UNKNOWN)."""
+
+    def peval_getattr(self, name: str) -> Any:  # pragma: no cover - interface
+        return UNKNOWN
+
+    def peval_setattr(self, name: str, value: Any) -> None:  # pragma: no cover - interface
+        return None
+
+    def peval_str(self) -> Any:  # pragma: no cover - interface
+        return UNKNOWN
+
+    def peval_isinstance(self, class_names: List[str]) -> Optional[bool]:  # pragma: no cover - interface
+        return None
+
+
 Oracle = Callable[[ast.expr, Dict[str, Any]], Optional[bool]]
 _in_test: Dict[int, bool] = {}  # guards the value() <-> test() mutual recursion
 CallHook = Callable[[ast.Call, List[Any], Dict[str, Any]], Any]
@@ -94,6 +111,15 @@ class Explorer:
                 return v
         if isinstance(e, ast.Name) and e.id in env:
             return env[e.id]
+        if isinstance(e, ast.Attribute):
+            base = self.value(e.value, env) if isinstance(e.value, (ast.Name, ast.Attribute)) else None
+            if isinstance(base, AbstractObject):
+                return base.peval_getattr(e.attr)
+        if (isinstance(e, ast.Call) and isinstance(e.func, ast.Name) and e.func.id == "str" and len(e.args) == 1 and not e.keywords
+                and "str" not in env):
+            a0 = self.value(e.args[0], env)
+            if isinstance(a0, AbstractObject):
+                return a0.peval_str()
         if isinstance(e, (ast.Compare, ast.BoolOp)) or (isinstance(e, ast.UnaryOp) and isinstance(e.op, ast.Not)) or (
             isinstance(e, ast.Call) and isinstance(e.func, ast.Name) and e.func.id == "isinstance"
         ):
@@ -109,9 +135,11 @@ class Explorer:
                 else:
                     assert isinstance(p, ast.FormattedValue)
                     v = self.value(p.value, env)
-                    if p.format_spec is None and p.conversion == -1 and isinstance(v, (str, int)) and not isinstance(v, bool):
+                    if isinstance(v, AbstractObject) and p.format_spec is None and p.conversion in (-1, 115):
+                        v = v.peval_str()
+                    if p.format_spec is None and p.conversion in (-1, 115) and isinstance(v, (str, int)) and not isinstance(v, bool):
                         parts.append(str(v))
-                    elif isinstance(v, Text) and p.format_spec is None and p.conversion == -1:
+                    elif isinstance(v, Text) and p.format_spec is None and p.conversion in (-1, 115):
                         parts.extend(v.parts)
                     else:
                         parts.append(None)
@@ -153,8 +181,8 @@ class Explorer:
 
             e = _Known().visit(_copy.deepcopy(e))
             ast.fix_missing_locations(e)
-        scope = Scope(self.folder, self.fn.module, self.fn.cls, {k: v for k, v in env.items() if v is not UNKNOWN and not isinstance(v, Text)})
-        if any(isinstance(n, ast.Name) and (env.get(n.id) is UNKNOWN or isinstance(env.get(n.id), Text)) for n in ast.walk(e)):
+        scope = Scope(self.folder, self.fn.module, self.fn.cls, {k: v for k, v in env.items() if v is not UNKNOWN and not isinstance(v, (Text, AbstractObject))})
+        if any(isinstance(n, ast.Name) and (env.get(n.id) is UNKNOWN or isinstance(env.get(n.id), (Text, AbstractObject))) for n in ast.walk(e)):
             return UNKNOWN
         try:
             v = self.folder.eval(e, scope)
@@ -219,6 +247,15 @@ class Explorer:
             _in_test.pop(id(t), None)
 
     def _test(self, t: ast.expr, env: Dict[str, Any]) -> Optional[bool]:
+        if (isinstance(t, ast.Call) and isinstance(t.func, ast.Name) and t.func.id == "isinstance" and len(t.args) == 2  # noqa: PLR2004
+                and isinstance(t.args[0], (ast.Name, ast.Attribute))):
+            subj = self.value(t.args[0], env)
+            if isinstance(subj, AbstractObject):
+                from .kinds import class_names
+
+                names = class_names(t.args[1])
+                if names is not None:
+                    return subj.peval_isinstance(names)
         if isinstance(t, ast.UnaryOp) and isinstance(t.op, ast.Not):
             v = self.test(t.operand, env)
             return None if v is None else not v
@@ -277,6 +314,11 @@ class Explorer:
             else:
                 env[t.value.id] = UNKNOWN
             return
+        if isinstance(t, ast.Attribute) and isinstance(t.value, (ast.Name, ast.Attribute)):
+            obj = self.value(t.value, env)
+            if isinstance(obj, AbstractObject):
+                obj.peval_setattr(t.attr, v)
+                return
         if isinstance(t, (ast.Subscript, ast.Attribute)):
             root = t
             while isinstance(root, (ast.Subscript, ast.Attribute)):
